@@ -191,3 +191,11 @@ Section Sound.
         constructor; [exact Logic.I | exact Hall].
   Qed.
 End Sound.
+
+(* for streams of key sequences only: what the two decoders say is the same list *)
+Lemma keys_said_equal : forall toks rs, Forall2 elem_ok (map SKey toks) rs ->
+  said (flat_map fst rs) = said (flat_map snd rs).
+Proof.
+  induction toks as [|t toks IH]; intros rs H; inversion H as [|x r xs rs' Hx Hrest]; subst; [reflexivity|].
+  cbn [flat_map]. rewrite !said_app. destruct Hx as (e & H2 & H1). rewrite H2, H1. f_equal. apply IH. exact Hrest.
+Qed.
